@@ -65,7 +65,16 @@ func TestC09Child(t *testing.T) {
 		fmt.Fprintf(out, format+"\n", args...)
 		out.Flush()
 	}
-	cfg := ringsim.Config{Seed: int64(cs.Joiner) + 5}
+	// a lookup has to return by itself: the transport's give-up timer is set beyond the 20 s
+	// budget of a lookup, so that a lookup which only ever ends because a forwarded call timed
+	// out (lock cycle, wait for a state change) is seen as what it is - one that does not return
+	cfg := ringsim.Config{Seed: int64(cs.Joiner) + 5, RPCTimeout: time.Minute}
+	if cs.Hook == "crossing-lookups-during-joins" {
+		// forwarded calls spend up to 1.5 ms on the wire, so that lookups really are in flight
+		// in both directions when the joins make the nodes update their pointers (on an idle
+		// machine an in-process hop takes microseconds and the window all but vanishes)
+		cfg.MaxDelay, cfg.DelayProb = 1500*time.Microsecond, 0.6
+	}
 	if cs.Hook == "pred-stabilized-fingers-stale" {
 		// nobody repairs fingers on its own while the state is being probed
 		cfg.FixFingerInterval = 1500 * time.Millisecond
@@ -102,10 +111,10 @@ func TestC09Child(t *testing.T) {
 		for round := 0; round < 6; round++ {
 			b, _ := json.Marshal(c09Lookup{I: round + 1, Phase: "crossing-lookups-during-joins", Node: X, Key: kx, NT: true})
 			say("LOOKUP %s", b)
-			go worker(X, kx, 1500)
-			go worker(Y, ky, 1500)
-			go worker(X, kx, 1500)
-			go worker(Y, ky, 1500)
+			go worker(X, kx, 400)
+			go worker(Y, ky, 400)
+			go worker(X, kx, 400)
+			go worker(Y, ky, 400)
 			// two joiners, one just before X and one just before Y
 			// (ids increase towards X resp. Y, so X resp. Y stays the successor that has to grant)
 			j1, j2 := (X-1000+uint64(round))&ringMax, (Y-1000+uint64(round))&ringMax
@@ -135,6 +144,10 @@ func TestC09Child(t *testing.T) {
 
 	var gate *ringsim.Gate
 	switch cs.Hook {
+	case "join-request-outstanding":
+		// the joiner has asked to join and has not been answered yet: state Joining, no
+		// neighbours known - a lookup issued to it now must come back (with an error)
+		gate = r.net.AddGate(&ringsim.Gate{Method: "RequestToJoin", Caller: cs.Joiner, AnyCallee: true, Nth: 1})
 	case "joiner-first-stabilize":
 		gate = r.net.AddGate(&ringsim.Gate{Method: "GetPredecessor", Caller: cs.Joiner, AnyCallee: true, Nth: 1})
 	case "joiner-outgoing-lookup":
@@ -332,7 +345,7 @@ func TestC09(t *testing.T) {
 			IDs:    ids,
 			Vias:   rapid.SliceOfN(rapid.IntRange(0, 1<<20), len(ids), len(ids)).Draw(t, "vias"),
 			Via:    rapid.IntRange(0, 3).Draw(t, "via"),
-			Hook:   rapid.SampledFrom([]string{"joiner-first-stabilize", "joiner-first-stabilize", "joiner-outgoing-lookup", "before-finish-join", "pred-outgoing-lookup", "pred-stabilized-fingers-stale", "pred-stabilized-fingers-stale", "none"}).Draw(t, "hook"),
+			Hook:   rapid.SampledFrom([]string{"join-request-outstanding", "joiner-first-stabilize", "joiner-first-stabilize", "joiner-outgoing-lookup", "before-finish-join", "pred-outgoing-lookup", "pred-stabilized-fingers-stale", "pred-stabilized-fingers-stale", "none"}).Draw(t, "hook"),
 			Nth:    rapid.IntRange(1, 60).Draw(t, "nth"),
 			Keys:   rapid.SliceOfN(rapid.Uint64Range(0, ringMax), 3, 3).Draw(t, "keys"),
 			KeyRel: rapid.SliceOfN(rapid.IntRange(-3, 3), 6, 6).Draw(t, "keyRel"),
@@ -365,6 +378,9 @@ var c09Regressions = []c09Case{
 	// fixed scenario: two non-adjacent nodes forward lookups to each other while joins update
 	// the predecessor pointers of both (lookups must not depend on locks held across a hop)
 	{IDs: []uint64{1 << 44, 5 << 44, 9 << 44, 13 << 44}, Vias: []int{0, 0, 0, 0}, Joiner: 3 << 44, Via: 0, Hook: "crossing-lookups-during-joins", Nth: 1, Keys: []uint64{1}, KeyRel: []int{0}},
+	// fixed scenario: the joiner's request to join has not been answered yet (state Joining, no
+	// neighbours); lookups issued to it must come back instead of waiting for the join
+	{IDs: []uint64{100, 200, 300}, Vias: []int{0, 0, 0}, Joiner: 250, Via: 0, Hook: "join-request-outstanding", Nth: 1, Keys: []uint64{50, 251}, KeyRel: []int{0, 1, -1}},
 }
 
 func head(s string, n int) string {
